@@ -314,6 +314,11 @@ Definition judge (op : bytes) (args : list val) (out : val) : verdict :=
     | [VInt kind; v; VStr f; VInt seed] => if in_u64 seed then judge_rt kind v f out else JSkip
     | _ => JSkip
     end
+  else if op_is op "fp.rtxo" then
+    match args with
+    | [VInt kind; v; VStr f; VInt seed] => if in_u64 seed then judge_rt kind v f out else JSkip
+    | _ => JSkip
+    end
   else if op_is op "fp.rem" then
     match args with
     | [VInt kind; v; VStr f; VStr tail] =>
